@@ -727,7 +727,7 @@ func rangeIndexSafe(x, idx ssa.Value, b *ssa.BasicBlock) bool {
 			return true
 		}
 		// x was made with len(y)
-		if sameLenAs(x, y) {
+		if sameLenAs(x, y) || sameLenAs(y, x) {
 			return true
 		}
 	}
